@@ -149,6 +149,16 @@ def _tree_case(run, bt, terms, rng_, case0, tagbase, how):
         keys, a, b = F.as_vectors(got, want)
         decide(run, f"post:construct_symbolic_ttno:formal_sum_for_all_coefficients@{tag}", "construct_symbolic_ttno", a, b, dict(case, algo=algo),
                numeric_replay=native_pair(native, how), fields={"algo": algo})
+        # the additive constant of the direct entry point (TTNO.__init__ never passes one): sum(terms) + const * 1, numerically on the given coefficients
+        try:
+            from vk.symx.harness import decide_close
+            const = 0.7
+            mpo_c, _ = st.construct_symbolic_ttno(bt, terms, const, algo)
+            tc, pc, fc = orig(model, terms, const)
+            keys, a2, b2 = F.as_vectors(F.expand_tree(nodes, mpo_c), F.target(tc, pc, np.asarray(fc)))
+            decide_close(run, f"post:construct_symbolic_ttno:additive_constant@{tag}", "construct_symbolic_ttno", a2, b2, dict(case, algo=algo, const=const), rel=1e-12, fields={"algo": algo})
+        except Exception as e:
+            decide_true(run, f"post:construct_symbolic_ttno:additive_constant:total@{tag}", "construct_symbolic_ttno", False, f"raised with const=0.7: {type(e).__name__}: {e}", case)
     return ncase
 
 
